@@ -744,15 +744,15 @@ def oracle_e2e(meta, impl):
             i = int(parts[2])
             return "violation", ("a batch of GET requests changed what a later read returns: sweep request #%d %s is answered %s %s on the "
                                  "stack that served nothing before and %s %s on the stack that served batch G%s"
-                                 % (i, " ".join(sweep[i]) if i < len(sweep) else "?", parts[3], txt(parts[4])[:400], parts[5],
-                                    txt(parts[6])[:400], before))
+                                 % (i, " ".join(sweep[i]) if i < len(sweep) else "?", parts[3], txt(parts[4])[:600], parts[5],
+                                    txt(parts[6])[:600], before))
         if parts[1] in ("repeatA", "repeatB") and len(parts) == 7:
             j, i = int(parts[2]), int(parts[5])
             between = ", ".join(m + " " + r for m, r in sweep[j + 1:i])[:1200]
             return "violation", ("read requests changed what a later read returns (stack %s): %s answered %s %s as sweep request #%d and %s as "
                                  "#%d, with only these GETs in between: %s"
-                                 % (parts[1][-1], " ".join(sweep[i]) if i < len(sweep) else "?", parts[3], txt(parts[4])[:400], j,
-                                    txt(parts[6])[:400], i, between))
+                                 % (parts[1][-1], " ".join(sweep[i]) if i < len(sweep) else "?", parts[3], txt(parts[4])[:600], j,
+                                    txt(parts[6])[:600], i, between))
         return "violation", "storage-backed case: " + f[1][:300]
     obs = f[f.index("K") + 1:]
     if len(obs) != len(meta["gets"]):
